@@ -561,6 +561,19 @@ func genC11(g *gen) {
 		}
 		g.emit("new f64 2,3 C", "new f32 2,3 C", fmt.Sprintf("bin %s fn $0 $1", op), "dump $0")
 		g.emit("new i16 2,3 C", "new i16 3,2 C", fmt.Sprintf("bin %s fn $0 $1", op), "dump $0")
+		// a scalar of another Go type than the tensor's elements is a mismatched element type: refused on either side, by the
+		// package function and by the method - never converted (values inside and outside the element type's range)
+		for _, dt := range []string{"i8", "u8", "i16", "u32", "i64", "f32", "f64"} {
+			for _, lit := range []string{"#k3:i", "#k300:i", "#k-1:i", "#k256:i", "#k2:f64", "#k1:u8"} {
+				if strings.HasSuffix(lit, ":"+dt) {
+					continue
+				}
+				for _, via := range []string{"fn", "meth"} {
+					g.emit("vset=2", fmt.Sprintf("new %s 2,3 C", dt), fmt.Sprintf("bin %s %s $0 %s", op, via, lit), "dump $0")
+					g.emit("vset=2", fmt.Sprintf("new %s 2,3 C", dt), fmt.Sprintf("bin %s %s %s $0", op, via, lit), "dump $0")
+				}
+			}
+		}
 	}
 }
 
